@@ -263,6 +263,17 @@ func (x *Exec) unknownCall(cfg *Config, f *Frame, tg target, args []Val, dest ss
 	x.usedTrusted["unknown function values (callbacks): arbitrary results, do not re-enter or mutate the verified object"] = true
 	var forks []*Config
 	if tg.unknown != nil {
+		for _, ci := range cfg.st.ctxs {
+			if ci.cancelFn.S == tg.unknown.S {
+				ci.cancelled = true
+				x.finishCall(f, dest, TupV{}, isDefer)
+				// goroutines waiting for this context now run
+				for x.runWatchers(cfg, f) {
+					return nil, false
+				}
+				return nil, false
+			}
+		}
 		x.oblige(cfg, "nil-func-call", tg.name, Neq(*tg.unknown, IntLit(0)), nil, pos)
 		cfg.st.assume(Neq(*tg.unknown, IntLit(0)))
 		// pure role: results are a function of the arguments
